@@ -25,6 +25,84 @@ COPY = {"memcpy": (0, 2, "len"), "memmove": (0, 2, "len"), "memset": (0, 2, "len
         "strncpy": (0, 2, "len"), "read": (1, 2, "len"), "recv": (1, 2, "len"), "fread": (0, None, "fread")}
 
 
+
+STRING_READERS = {"strlen": (0,), "strcmp": (0, 1), "strncmp": (0, 1), "strstr": (0, 1), "strchr": (0,), "strrchr": (0,), "strcspn": (0, 1), "strspn": (0, 1),
+                  "strdup": (0,), "strcpy": (1,), "stpcpy": (1,), "sscanf": (0,), "atoi": (0,), "strtol": (0,), "strtoul": (0,), "strtoimax": (0,),
+                  "strtoumax": (0,), "strtod": (0,), "puts": (0,), "fputs": (0,), "inet_pton": (1,), "getaddrinfo": (0, 1)}
+STRING_WRITERS = {"snprintf": 0, "sprintf": 0, "strcpy": 0, "stpcpy": 0, "strncpy": 0, "memcpy": 0, "memmove": 0, "memset": 0, "strftime": 0, "hexify": 1,
+                  "inet_ntop": 2, "read": 1, "fread": 0}
+
+
+def j5(prog, rep):
+    """A local character array handed to a string function holds a string on every path: it was filled by a writer
+    (snprintf, strcpy, memcpy, ...), by fgets on its non-NULL edge (at end-of-file fgets leaves the array untouched), or
+    terminated explicitly at index 0 -- otherwise the string function walks whatever the stack held, beyond the array."""
+    from ..dataflow import Solver
+    n = 0
+    for up in UNITS:
+        u = prog.unit(up)
+        for f in u.funcs:
+            if f.file != up:
+                continue
+            arrays = {}
+            for e in f.all_elems():
+                if e.cls == "DeclStmt" and e.decls:
+                    for d in e.decls:
+                        t = u.types.get(d.get("ty", "")) or {}
+                        if t.get("kind") == "array" and (u.types.get(t.get("elem", "")) or {}).get("size") == 1 and not d.get("init"):
+                            arrays[("v", d["name"], d["id"])] = d
+            if not arrays:
+                continue
+
+            def arr_of(a):
+                if a is None:
+                    return None
+                x = norm(a)
+                if x in arrays:
+                    return x
+                if x[0] == "&" and x[1][0] == "[]" and x[1][1] in arrays and x[1][2] == ("c", 0):
+                    return x[1][1]
+                return None
+
+            def transfer(st, e):
+                if e.cls == "CallExpr" and e.callee in STRING_WRITERS:
+                    x = arr_of(e.arg(STRING_WRITERS[e.callee]))
+                    if x is not None:
+                        return st | {x}
+                if e.is_assign and e.op == "=":
+                    l = norm(e.kid(0))
+                    if l[0] == "[]" and l[1] in arrays and l[2] == ("c", 0) and norm(e.kid(1)) == ("c", 0):
+                        return st | {l[1]}
+                return st
+
+            def refine(st, cond, kind):
+                if kind in (True, False):
+                    for op, L, R, Le, _ in cond_atoms(cond, kind):
+                        ce = Le.strip() if Le is not None else None
+                        if ce is not None and ce.cls == "CallExpr" and ce.callee == "fgets" and R == ("c", 0) and op == "!=":
+                            x = arr_of(ce.arg(0))
+                            if x is not None:
+                                st = st | {x}
+                return st
+            sv = Solver(f, frozenset(), transfer, refine, lambda a, b: a & b).run()
+            sites = []
+
+            def visit(e, st):
+                if e.cls == "CallExpr" and e.callee in STRING_READERS:
+                    for k in STRING_READERS[e.callee]:
+                        x = arr_of(e.arg(k))
+                        if x is not None:
+                            sites.append((e, x, x in st))
+            sv.visit(visit)
+            for e, x, ok in sites:
+                n += 1
+                rep.check(ok, "J5-defined", "%s reads the local array %s in %s" % (e.callee, x[1], f.name), e.where,
+                          "on some path nothing has been written into %s[%s] before this call (fgets leaves the array untouched when it returns NULL): "
+                          "the string function reads indeterminate stack bytes, possibly past the array" % (x[1], arrays[x].get("ty", "")), function=f.name, construct="defined:" + x[1])
+    if n < 3:
+        rep.defer_broken("J5: fewer than 3 local character arrays handed to string functions found")
+
+
 def j1(prog, rep):
     C = cursor.CursorAnalysis(prog, "util/json.c")
     if len(C.funcs) < 9:
@@ -388,7 +466,8 @@ def run(tier):
         "safe for buf == end; (J2) the decoders' unchecked table positions are preceded by a rejecting pass over the same input, and "
         "table indices are bounded below the table size; (J3) every copy-like call into a fixed-size or locally allocated object is "
         "bounded by a constant that fits or by a dominating length test, and the serialised-address decoder reads only what its "
-        "length tests established; (J4) strlen-relative and constant indices are in range. Not decided: termination; the bytes read "
+        "length tests established; (J4) strlen-relative and constant indices are in range; (J5) a local character array handed to a string function was filled or "
+        "terminated on every path (fgets only on its non-NULL edge). Not decided: termination; the bytes read "
         "by libc callees (inet_pton, strto*, getaddrinfo); option parsing (C18).",
         trusted=["libc string functions read only up to the terminator of valid strings"])
     configs = [cdb.HOST]
@@ -401,6 +480,7 @@ def run(tier):
         j2(prog, rep)
         j3(prog, rep)
         j4(prog, rep)
+        j5(prog, rep)
     n = len(configs)
     rep.require_min("J1-cursor", 80 * n)
     rep.require_min("J2-validated", 3 * n)
